@@ -7,7 +7,7 @@ mkdir -p .build .work evidence replays lean/SsqlVerif/Generated
 (cd harness/factsgen && go build -o ../../.build/factsgen .)
 .build/factsgen /repo facts.d > lean/SsqlVerif/Generated/Facts.lean.new
 mv lean/SsqlVerif/Generated/Facts.lean.new lean/SsqlVerif/Generated/Facts.lean
-python3 -c "import sys; sys.argv=['check']; exec(open('check').read().split('# ------------------------------------------------------------------ main')[0]); gen_registry()"
+./check --gen-registry
 (cd lean && lake build SsqlVerif ssqldrv)
 cp /repo/go.sum harness/go.sum
 (cd harness && go build -tags verif -o ../.build/verifharness .)
